@@ -252,8 +252,11 @@ fn step(ctx: &mut Ctx, id: &str, t: &[&str]) -> String {
             let force = t.get(6).copied() == Some("force");
             let threads = ctx.threads;
             let r = in_pool(threads, || {
+                #[cfg(feature = "std")]
                 dusk_plonk::verif::set_force(force);
+                let _ = force;
                 let r = prover.prove_with_version(&mut rng, &circuit, ver);
+                #[cfg(feature = "std")]
                 dusk_plonk::verif::set_force(false);
                 r
             });
@@ -298,6 +301,35 @@ fn step(ctx: &mut Ctx, id: &str, t: &[&str]) -> String {
             match in_pool(threads, || verifier.verify_with_version(proof, &pi, ver)) {
                 Ok(()) => "OK".into(),
                 Err(e) => format!("ERR {}", err_kind(&e)),
+            }
+        }
+        "concurrent" => {
+            // concurrent <keys> <circuit> <nthreads> <seed>: the same calls from several
+            // threads on shared keys must return what they return sequentially
+            let prover = &ctx.provers[t[1]];
+            let verifier = &ctx.verifiers[t[1]];
+            let circuit = ctx.circuits[t[2]].clone();
+            let n: usize = t[3].parse().unwrap();
+            let seed: u64 = t[4].parse().unwrap();
+            let run_one = |i: usize| -> String {
+                let mut rng = ScriptRng::new(seed + i as u64, Vec::new());
+                match prover.prove(&mut rng, &circuit) {
+                    Ok((proof, pi)) => {
+                        let v = verifier.verify(&proof, &pi).is_ok();
+                        format!("{}:{}", fnv(&proof.to_bytes()), v)
+                    }
+                    Err(e) => format!("ERR{}", err_kind(&e)),
+                }
+            };
+            let sequential: Vec<String> = (0..n).map(run_one).collect();
+            let concurrent: Vec<String> = std::thread::scope(|s| {
+                let hs: Vec<_> = (0..n).map(|i| { let f = &run_one; s.spawn(move || f(i)) }).collect();
+                hs.into_iter().map(|h| h.join().unwrap()).collect()
+            });
+            if sequential == concurrent && sequential.iter().all(|x| x.ends_with(":true")) {
+                format!("OK {}", fnv(sequential.join(",").as_bytes()))
+            } else {
+                format!("DIFF seq={:?} conc={:?}", sequential, concurrent)
             }
         }
         "proverbytes" => format!("OK {}", hex(&ctx.provers[t[1]].to_bytes())),
